@@ -3,6 +3,7 @@ import Poulpy.Lemmas.NegMul
 import Poulpy.Lemmas.CnvSum
 import Poulpy.Lemmas.Ntt120Top
 import Poulpy.Lemmas.NttSum
+import Poulpy.Lemmas.NttAvxBridge
 
 /-!
 # C07 — DFT-domain products equal exact negacyclic (bivariate) convolution
@@ -648,5 +649,298 @@ example : ∃ t, nttTableK primes30 0 65536 = .ok t :=
   (ntt120_tables_never_panic primes30 primes30_nttGood 0 16 (by decide) (by decide) (by decide)).1
 
 end NTT120Transform
+
+/-! ## The NTT120 back end at HAL level (`convolution.rs`, `vmp.rs`, `vec_znx_dft.rs` of `reference/ntt120`)
+
+Whole HAL operations composed from the tied kernels (`Model/Ntt120Hal.lean`) against the exact-integer HAL
+specification (`Model/HalSpec.lean`), for every `n = 2^j`, `1 ≤ j ≤ 16`:
+
+* ranges: every forward-transform output is below `2·Q_SHIFTED`, every inverse output below `Q_SHIFTED`; the forward
+  bound reaches `2^63` exactly when `log2 n ≡ 1 (mod 5)` — the sizes at which a *lazy* 64-bit sum of two outputs wraps;
+* convolution: `cnv_prepare_left/right/self` (+ top-limb mask), `cnv_apply_dft`, `cnv_pairwise_apply_dft` (`i ≠ j`, canonical
+  pack sums), `cnv_by_const_apply`, then `idft`: equal `Hal.cnvApplyCol` / `cnvPrepareCol` / `colAdd` when the result fits `(Q−1)/2`;
+* vmp: `vec_znx_dft_apply`, `vmp_prepare`, `vmp_apply_dft_to_dft(limb_offset)` (sub-shapes, zero fill, paired / odd columns,
+  1-col / 2-cols kernels, prepared layout), then `idft`: equal `Hal.vmpFlat`;
+* arbitrary compositions of DFT-domain operations (`DExpr`): the stored lanes represent the specified polynomial, every
+  residue stays below `2·Q_SHIFTED`, the AVX2 lazy kernels store the same bits;
+* the remaining kernels: `add_ccc`, `baa`, `bbb::<Primes31>`, `fill_reduction_meta(64)`, the fused CRT of `idft_apply_consume`;
+* bridge to C10: each HAL step of NTT120Avx computes the reference lanes on every state that can occur. -/
+
+section NTT120Hal
+open Ntt120 NttMath
+
+/-- **ranges of the transforms** (Primes30, all 16 sizes, all four lanes): `ntt_ref` outputs `< 2·(Q[k] << 33)` and `intt_ref`
+outputs `< Q[k] << 33`, for EVERY `u64` input; and the forward bound is at least `2^63` iff `log2 n ≡ 1 (mod 5)` -/
+theorem ntt120_transform_ranges (k j : Nat) (hk : k < 4) (hj1 : 1 ≤ j) (hj : j ≤ 16) (t ti : TableK)
+    (ht : nttTableK primes30 k (2 ^ j) = .ok t) (hti : inttTableK primes30 k (2 ^ j) = .ok ti)
+    (v : List Nat) (hv : v.length = 2 ^ j) (hu : ∀ x ∈ v, x ≤ 2 ^ 64 - 1) :
+    (∀ x ∈ nttK t v, x < 2 * (primes30.qs.getD k 1 * 2 ^ 33)) ∧ (∀ x ∈ inttK ti v, x < primes30.qs.getD k 1 * 2 ^ 33) ∧
+    (2 ^ 63 ≤ fwdFinal primes30 k j ↔ j % 5 = 1) := by
+  have g := primes30_nttGood k hk
+  obtain ⟨r1, r2⟩ := primes30_transform_ranges k hk j (by omega) hj1
+  refine ⟨fun x hx => ?_, fun x hx => ?_, primes30_fwd_bound_fills_64_bits k hk j (by omega) hj1⟩
+  · have := nttK_real_bound primes30 k j g.1 hj1 hj t ht v hv hu x hx; omega
+  · have := inttK_real_bound primes30 k j g.1 g.2 hj1 hj ti hti v hv hu x hx; omega
+
+/-- **the seeded lazy pack really wraps**: `lazyWitness` is slot 39 of prime 0 of the forward transform (`n = 64`) of the constant
+limb `i64::MAX`; it exceeds `2^63`; the canonical pack of `(w, w)` is congruent to `2w`, the lazy 64-bit sum `(w + w) mod 2^64`
+(split into its two `u32` halves) is not — `cnv_pairwise_apply_dft` with the lazy pack is wrong at `log2 n ≡ 1 (mod 5)` -/
+theorem ntt120_lazy_pairwise_pack_wraps :
+    (lazyWitness = 14134845492789138207 ∧ 2 ^ 63 ≤ lazyWitness) ∧
+    ¬ ((pairwisePackLeftLazyK lazyWitness lazyWitness).1 + 2 ^ 32 * (pairwisePackLeftLazyK lazyWitness lazyWitness).2
+        ≡ lazyWitness + lazyWitness [MOD primes30.q0]) ∧
+    (pairwisePackLeftK primes30.q0 lazyWitness lazyWitness).1 ≡ lazyWitness + lazyWitness [MOD primes30.q0] :=
+  ⟨lazyWitness_value, lazy_pairwise_pack_wraps.1, lazy_pairwise_pack_wraps.2⟩
+
+/-- **`ntt120_cnv_matches_spec`**: `cnv_prepare_left(a, mask_a)`, `cnv_prepare_right(b, mask_b)`, `cnv_apply_dft(cnv_offset)`,
+`vec_znx_idft_apply` on the NTT120 back end compute exactly `Hal.cnvApplyCol` of the prepared columns (the bivariate negacyclic
+convolution truncated at `cnv_offset`, top limbs masked, zero fill), whenever the specified result fits `(Q−1)/2` -/
+theorem ntt120_cnv_matches_spec (P : PrimeSet) (g : P.Good) (ng : P.NttGood) (j : Nat) (hj1 : 1 ≤ j) (hj : j ≤ 16)
+    (rs off la lb : Nat) (mA mB : Int) (a b : Col) (ha : ColOK j a) (hb : ColOK j b) (hla : 0 < la) (hlb : 0 < lb) (hsz : la < 10000)
+    (hbound : ∀ l, l < rs → ∀ i, i < 2 ^ j →
+      -(((bigQ P : Int) - 1) / 2) ≤ ((cnvApplyCol (2 ^ j) rs off (cnvPrepareCol (2 ^ j) la mA a) (cnvPrepareCol (2 ^ j) lb mB b)).getD l (zeroP (2 ^ j))).getD i 0 ∧
+      ((cnvApplyCol (2 ^ j) rs off (cnvPrepareCol (2 ^ j) la mA a) (cnvPrepareCol (2 ^ j) lb mB b)).getD l (zeroP (2 ^ j))).getD i 0 ≤ ((bigQ P : Int) - 1) / 2) :
+    cnvPipeline P (2 ^ j) rs off la lb mA mB a b =
+      cnvApplyCol (2 ^ j) rs off (cnvPrepareCol (2 ^ j) la mA a) (cnvPrepareCol (2 ^ j) lb mB b) :=
+  cnvPipeline_exact P g ng j hj1 hj rs off la lb mA mB a b ha hb hla hlb hsz hbound
+
+/-- **`cnv_pairwise_apply_dft`, `i ≠ j`** (canonical pack sums `(a_i%q + a_j%q) mod q`, `u32` sums on the right): the result is
+`cnvApplyCol` of the column sums `(a_i + a_j)`, `(b_i + b_j)` of the prepared columns -/
+theorem ntt120_cnv_pairwise_matches_spec (P : PrimeSet) (g : P.Good) (ng : P.NttGood) (j : Nat) (hj1 : 1 ≤ j) (hj : j ≤ 16)
+    (rs off la lb : Nat) (mA mB : Int) (ai aj bi bj : Col) (hai : ColOK j ai) (haj : ColOK j aj) (hbi : ColOK j bi) (hbj : ColOK j bj)
+    (hla : 0 < la) (hlb : 0 < lb) (hsz : la < 10000)
+    (hbound : ∀ l, l < rs → ∀ i, i < 2 ^ j →
+      -(((bigQ P : Int) - 1) / 2) ≤ ((cnvApplyCol (2 ^ j) rs off
+          (colAdd (2 ^ j) (cnvPrepareCol (2 ^ j) la mA ai) (cnvPrepareCol (2 ^ j) la mA aj))
+          (colAdd (2 ^ j) (cnvPrepareCol (2 ^ j) lb mB bi) (cnvPrepareCol (2 ^ j) lb mB bj))).getD l (zeroP (2 ^ j))).getD i 0 ∧
+      ((cnvApplyCol (2 ^ j) rs off
+          (colAdd (2 ^ j) (cnvPrepareCol (2 ^ j) la mA ai) (cnvPrepareCol (2 ^ j) la mA aj))
+          (colAdd (2 ^ j) (cnvPrepareCol (2 ^ j) lb mB bi) (cnvPrepareCol (2 ^ j) lb mB bj))).getD l (zeroP (2 ^ j))).getD i 0 ≤ ((bigQ P : Int) - 1) / 2) :
+    cnvPairwisePipeline P (2 ^ j) rs off la lb mA mB ai aj bi bj =
+      cnvApplyCol (2 ^ j) rs off (colAdd (2 ^ j) (cnvPrepareCol (2 ^ j) la mA ai) (cnvPrepareCol (2 ^ j) la mA aj))
+        (colAdd (2 ^ j) (cnvPrepareCol (2 ^ j) lb mB bi) (cnvPrepareCol (2 ^ j) lb mB bj)) :=
+  cnvPairwisePipeline_exact P g ng j hj1 hj rs off la lb mA mB ai aj bi bj hai haj hbi hbj hla hlb hsz hbound
+
+/-- **`cnv_by_const_apply`** (coefficient domain, `i128` accumulators): exact while no accumulator leaves the `i128` range -/
+theorem ntt120_cnv_by_const_exact (n rs off : Nat) (a : Col) (b : List Int)
+    (h : ∀ l ∈ cnvByConstCol id n rs off a b, ∀ x ∈ l, -(2 ^ 127) ≤ x ∧ x < 2 ^ 127) :
+    cnvByConstCol w128 n rs off a b = cnvByConstCol id n rs off a b := cnvByConst_exact n rs off a b h
+
+/-- **`vec_znx_dft_apply(step, offset)`**: every stored lane represents (is the negacyclic transform modulo `Q[k]` of) the limb
+`Hal.dftApplyCol` selects — input limb `offset + l·step` or zero -/
+theorem ntt120_dft_apply_matches_spec (P : PrimeSet) (ng : P.NttGood) (k j : Nat) (hk : k < 4) (hj1 : 1 ≤ j) (hj : j ≤ 16)
+    (step offset rs : Nat) (a : Col) (ha : ColOK j a) (l : Nat) (hl : l < rs) :
+    Rep P k j ((dftApplyLaneK (P.qs.getD k 1) (2 ^ j) (realNtt P (2 ^ j) k) step offset rs a).getD l [])
+      ((dftApplyCol (2 ^ j) step offset rs a).getD l (zeroP (2 ^ j))) :=
+  dftApplyLane_rep P k j (laneCtx_of P ng k j hk hj1 hj) step offset rs a ha l hl
+
+/-- **`ntt120_vmp_matches_spec` for the full signature**: `vec_znx_dft_apply` on the input limbs, `vmp_prepare` on the matrix,
+`vmp_apply_dft_to_dft(res, a, pmat, limb_offset)`, `vec_znx_idft_apply` compute exactly `Hal.vmpFlat` — any `limb_offset`,
+`row_max = min(rows·cols_in, |a|)`, `col_max = min(cols_out·size, |res| + limb_offset·cols_out)`, zero fill beyond, paired and
+odd columns — whenever the specified result fits `(Q−1)/2` -/
+theorem ntt120_vmp_full_matches_spec (P : PrimeSet) (g : P.Good) (ng : P.NttGood) (j : Nat) (hj1 : 1 ≤ j) (hj : j ≤ 16)
+    (aFlat : List Poly) (m : PMat) (limbOffset resLen : Nat) (ha : ColOK j aFlat) (hm : PMatOK j m)
+    (hrow : min (m.colsIn * m.rows) aFlat.length < 10000)
+    (hbound : ∀ r, r < resLen → ∀ i, i < 2 ^ j →
+      -(((bigQ P : Int) - 1) / 2) ≤ ((vmpFlat (2 ^ j) aFlat m limbOffset resLen).getD r (zeroP (2 ^ j))).getD i 0 ∧
+      ((vmpFlat (2 ^ j) aFlat m limbOffset resLen).getD r (zeroP (2 ^ j))).getD i 0 ≤ ((bigQ P : Int) - 1) / 2) :
+    vmpFullPipeline P (2 ^ j) aFlat m limbOffset resLen = vmpFlat (2 ^ j) aFlat m limbOffset resLen :=
+  vmpFullPipeline_exact P g ng j hj1 hj aFlat m limbOffset resLen ha hm hrow hbound
+
+/-- the same on ARBITRARY DFT-domain input (any `u64` residues representing `aFlat`, e.g. results of earlier lazy operations):
+every output lane represents the `vmpFlat` limb and every stored residue is at most `2^63 + 2^47` -/
+theorem ntt120_vmp_any_input (P : PrimeSet) (ng : P.NttGood) (k j : Nat) (hk : k < 4) (hj1 : 1 ≤ j) (hj : j ≤ 16)
+    (A : List (List Nat)) (aFlat : List Poly) (M : Nat → Nat → List (Nat × Nat)) (m : PMat) (limbOffset resLen : Nat)
+    (hA : A.length = aFlat.length) (hrow : min (m.colsIn * m.rows) aFlat.length < 10000)
+    (hAr : ∀ i (hi : i < aFlat.length), Rep P k j (A.getD i []) (aFlat[i]))
+    (hM : ∀ i cc, i < min (m.colsIn * m.rows) aFlat.length → cc < m.colsOut * m.size → PrepRep P k j (M i cc) (m.entry i cc))
+    (r : Nat) (hr : r < resLen) :
+    Rep P k j
+      ((vmpApplyLaneK (P.qs.getD k 1) (bbcH P) (2 ^ j) A M (m.colsIn * m.rows) (m.colsOut * m.size) (limbOffset * m.colsOut) resLen).getD r [])
+      ((vmpFlat (2 ^ j) aFlat m limbOffset resLen).getD r (zeroP (2 ^ j))) ∧
+    ∀ x ∈ (vmpApplyLaneK (P.qs.getD k 1) (bbcH P) (2 ^ j) A M (m.colsIn * m.rows) (m.colsOut * m.size) (limbOffset * m.colsOut) resLen).getD r [],
+      x ≤ 2 ^ 63 + 2 ^ 47 :=
+  vmpApplyLane_rep P k j (laneCtx_of P ng k j hk hj1 hj) A aFlat M m limbOffset resLen hA hrow hAr hM r hr
+
+/-- **the kernel calls of `vmp_apply_dft_to_dft_core`** (one block iteration, `limb_offset < col_max ≤ ncols`): the
+`save_blk` calls write every active result column exactly once, in increasing order (`vmpWrites = range.map vmpSource`: even /
+odd `limb_offset`, even / odd `col_max`, 2-column kernel halves, 1-column kernel for the last column of an odd matrix), and the
+block each call reads for row `i` is exactly the slot where `vmp_prepare` stored entry `(i, r + limb_offset)` -/
+theorem ntt120_vmp_kernel_calls (nrows ncols L colMax : Nat) (hL : L < colMax) (hcm : colMax ≤ ncols) :
+    vmpWrites L colMax ncols = (List.range (colMax - L)).map (vmpSource L colMax ncols) ∧
+    ∀ r blk i, r < colMax - L →
+      vmpReadAddr nrows ncols (vmpSource L colMax ncols r) blk i = vmpSlotAddr nrows ncols i (r + L) blk :=
+  ⟨vmpWrites_eq L colMax ncols hL, fun r blk i hr => vmpReadAddr_eq_slot nrows ncols L colMax r blk i hL hcm hr⟩
+
+/-- **the block-interleaved layout of `vmp_prepare`**: slots are 16-word aligned, inside the `n_blks·nrows·ncols·16`-word buffer,
+and distinct `(row, col, blk)` get distinct (hence disjoint) slots — no entry overwrites another -/
+theorem ntt120_vmp_prepared_layout (nrows ncols nblks row col blk row' col' blk' : Nat) (hrow : row < nrows) (hcol : col < ncols)
+    (hblk : blk < nblks) (hrow' : row' < nrows) (hcol' : col' < ncols) :
+    vmpSlotAddr nrows ncols row col blk % 16 = 0 ∧
+    vmpSlotAddr nrows ncols row col blk + 16 ≤ nblks * (nrows * ncols * 16) ∧
+    (vmpSlotAddr nrows ncols row col blk = vmpSlotAddr nrows ncols row' col' blk' → row = row' ∧ col = col' ∧ blk = blk') :=
+  vmpSlotAddr_inj_bound nrows ncols nblks row col blk row' col' blk' hrow hcol hblk hrow' hcol'
+
+/-- **the lazy range invariant over arbitrary operation sequences** (Primes30): whatever finite sequence of zero fills,
+`vec_znx_dft_apply`s, `bbc` products and lazy `add / sub / negate`s produced a stored residue (`Reach`), it is below
+`2·(Q[k] << 33)` — with the reference kernels and with the AVX2 kernels — and the two back ends reach the same values.  This
+closes the observation that the AVX2 lazy add is only correct for `x < 2·Q_SHIFTED`: the HAL never leaves that range. -/
+theorem ntt120_lazy_range_invariant (k j : Nat) (hk : k < 4) (hj1 : 1 ≤ j) (hj : j ≤ 16) (avx : Bool) (x : Nat)
+    (h : Reach primes30 k j avx x) :
+    x < 2 * (primes30.qs.getD k 1 * 2 ^ 33) ∧ (Reach primes30 k j true x ↔ Reach primes30 k j false x) :=
+  ⟨reach_lt primes30 k j avx (primes30_reachFacts k j hk hj1 hj) x h, reach_avx_iff primes30 k j (primes30_reachFacts k j hk hj1 hj) x⟩
+
+/-- **any composition of DFT-domain HAL operations** (`DExpr`: zero, `dft_apply`, one-row product with a prepared polynomial,
+lazy add / sub / negate, nested to any depth; Primes30): the stored lane represents the specified polynomial, every residue is
+below `2·(Q[k] << 33)`, and the AVX2 lazy kernels store exactly the bits of the reference kernels -/
+theorem ntt120_hal_compositions (k j : Nat) (hk : k < 4) (hj1 : 1 ≤ j) (hj : j ≤ 16) (e : DExpr) (hw : e.WF j) :
+    Rep primes30 k j (e.lane primes30 k (2 ^ j) false) (e.spec (2 ^ j)) ∧
+    e.lane primes30 k (2 ^ j) true = e.lane primes30 k (2 ^ j) false ∧
+    ∀ avx, ∀ x ∈ e.lane primes30 k (2 ^ j) avx, x < 2 * (primes30.qs.getD k 1 * 2 ^ 33) :=
+  ⟨(dexpr_sound primes30 k j (laneCtx_of primes30 primes30_nttGood k j hk hj1 hj) (primes30_reachFacts k j hk hj1 hj) e hw).1,
+   dexpr_avx_eq_ref primes30 k j (laneCtx_of primes30 primes30_nttGood k j hk hj1 hj) (primes30_reachFacts k j hk hj1 hj) e hw,
+   fun avx => dexpr_range primes30 k j (laneCtx_of primes30 primes30_nttGood k j hk hj1 hj) (primes30_reachFacts k j hk hj1 hj) e hw avx⟩
+
+/-! ### the remaining kernels -/
+
+/-- `add_ccc_ref`: the canonical sum modulo the prime of two `u32` words -/
+theorem ntt120_add_ccc (q x y : Nat) (hq0 : 0 < q) (hq : q < 2 ^ 32) (hx : x < 2 ^ 32) (hy : y < 2 ^ 32) :
+    addCccK q x y = (x + y) % q ∧ addCccK q x y < q := addCccK_spec q x y hq0 hq hx hy
+
+/-- `vec_mat1col_product_baa_ref` with the crate's `BaaMeta`, Primes29/30/31: no 64-bit wrap for fewer than 10 000 rows of `u32`
+operands, result congruent to the dot product -/
+theorem ntt120_baa_no_overflow (P : PrimeSet) (hP : P ∈ [primes29, primes30, primes31]) (k : Nat) (hk : k < 4) (ts : List (Nat × Nat))
+    (hu : ∀ t ∈ ts, t.1 < 2 ^ 32 ∧ t.2 < 2 ^ 32) (hell : ts.length < 10000) :
+    baaK (baaMeta P).h ((baaMeta P).hPowRed.getD k 0) ts ≡ dotA ts [MOD P.qs.getD k 1] := baaOut_spec P hP k hk ts hu hell
+
+/-- `vec_mat1col_product_bbb_ref::<Primes31>`: correct as well (the constants only fit `2^31`, the split point 24 leaves room) -/
+theorem ntt120_bbb_primes31 (k : Nat) (hk : k < 4) (ell : Nat) (x y : Array Nat) (hell : ell < 10000)
+    (hx : ∀ i, x.getD i 0 < 2 ^ 64) (hy : ∀ i, y.getD i 0 < 2 ^ 64) :
+    bbbOutK (bbbMeta primes31) ell k x y ≡ dot2 ((List.range ell).map (fun i => (x.getD (4 * i + k) 0, y.getD (4 * i + k) 0))) [MOD primes31.qs.getD k 1] :=
+  bbbOutK_spec31 k hk ell x y hell hx hy
+
+/-- `fill_reduction_meta(64)` for the three prime sets: the chosen split point and constants make `modq_red` map every `u64` to
+a congruent value below `2^bs_after ≤ 2^48` -/
+theorem ntt120_fill_reduction_meta (P : PrimeSet) (hP : P ∈ [primes29, primes30, primes31]) (k : Nat) (hk : k < 4) (x : Nat) (hx : x < 2 ^ 64) :
+    modqRed x (fillReductionMeta P 64).h (fillReductionMeta P 64).mask ((fillReductionMeta P 64).cst.getD k 0) ≡ x [MOD P.qs.getD k 1] ∧
+    modqRed x (fillReductionMeta P 64).h (fillReductionMeta P 64).mask ((fillReductionMeta P 64).cst.getD k 0) < 2 ^ (fillReductionMeta P 64).bsAfter ∧
+    (fillReductionMeta P 64).bsAfter ≤ 48 := modqRed_meta_spec P hP k hk x hx
+
+/-- **`vec_znx_idft_apply_consume` = `vec_znx_idft_apply`** on one coefficient: the fused per-prime Barrett CRT digits, the `u128`
+sum (no wrap), the table reduction (index ≤ 3, no panic) and the symmetric lift of `compact_all_blocks_scalar` equal
+`b_to_znx128_ref` for every q120b word in the inverse transform's output range -/
+theorem ntt120_idft_consume_eq_apply (x0 x1 x2 x3 : Nat) (h0 : x0 < primes30.q0 * 2 ^ 33) (h1 : x1 < primes30.q1 * 2 ^ 33)
+    (h2 : x2 < primes30.q2 * 2 ^ 33) (h3 : x3 < primes30.q3 * 2 ^ 33) :
+    compactCrt primes30 [x0, x1, x2, x3] = .ok (bToZnx128Core primes30 x0 x1 x2 x3) :=
+  compactCrt_eq_bToZnx128 x0 x1 x2 x3 h0 h1 h2 h3
+
+/-! ### bridge to C10: every `ntt120_*_matches_spec` holds for NTT120Avx
+
+The theorems above are about the reference lane functions (`bFromU64K`, `nttK`, `cPairK`/`cFromBK`, `packLeftK`, `bbcK`,
+`addBbbK`/`subBbbK`/`negBK`, `inttK`, `bToZnx128Core`).  The AVX2 back end differs only in these kernels; for each of them the
+C10 lane model (`Model/AvxNtt.lean`, `BitVec 64` intrinsics) computes the same value on every operand that can occur:
+
+| HAL step | C10 lemma used | range needed | provided by |
+|---|---|---|---|
+| `b_from_znx64[_masked]` | `Avx.Ntt.bFromZnx64_eq_ref` | none (all `i64`) | — |
+| `ntt_avx2` | `Avx.Ntt.nttAvx_real` | none (all `u64`) | table entries are `u64` (`fitsTable`, hypothesis) |
+| `c_from_b_avx2`, `pack_left` | `Avx.Ntt.barrett_eq_mod`, `reduceB_toNat` (C10) + `cFromB_eq_ref_wide` (here) | none (all `u64`) | `2^32 mod Q[k] < 2^28` |
+| `pairwise_pack_left` | `reduceB_toNat`, `condSub_toNat` (C10) + `pairwisePackLeft_eq_ref_wide` (here) | none (all `u64`) | `2^32 mod Q[k] < 2^28` |
+| `pairwise_pack_right` | `C10.NttAvx.ntt120_avx_pairwise_pack_right_eq_ref` | none (wrapping `u32` sum) | — |
+| `bbc` 1col / x2 / 2cols | `Avx.Ntt.bbcLane_eq_ref` | none (`< 2^24` rows of any `u64`) | — |
+| lazy add / sub / negate | `C10.NttAvx.ntt120_avx_lazy_lanes_all_inputs` (intrinsics = `addBbbAvxK` …, all inputs; SAT-backed, C10's axioms) | `x < 2·Q_SHIFTED` for `addBbbAvxK = addBbbK` | `ntt120_hal_compositions` / `ntt120_lazy_range_invariant` (here; `AvxBridge.avx_lazy_on_reachable` composes the two) |
+| `intt_avx2` | `Avx.Ntt.inttAvx_real` | none | `fitsTable` (hypothesis) |
+| `b_to_znx128_avx2` | `Avx.Ntt.bToZnx128Avx_eq_ref` | `x < Q·2^33` | `inttK_real_bound` + `primes30_transform_ranges` |
+
+Since the x2-block / column layouts are shared by the two back ends, the AVX2 pipelines store the reference pipelines' bits, and
+`ntt120_svp_matches_spec`, `ntt120_vmp_full_matches_spec`, `ntt120_cnv_matches_spec`, `ntt120_dft_apply_matches_spec`,
+`ntt120_hal_compositions` hold for NTT120Avx as stated. -/
+
+/-- `c_from_b_avx2`, `pack_left_1blk_x2_avx2` and `pairwise_pack_left_1blk_x2_avx2` with the Primes30 constants equal the reference on EVERY 64-bit word (C10 proves
+`x < Q·2^33`; forward transform outputs exceed that, e.g. `lazyWitness`) -/
+theorem ntt120avx_prepare_all_inputs (k : Nat) (hk : k < 4) (x : BitVec 64) :
+    ((Avx.Ntt.cFromB x (BitVec.ofNat 64 (Avx.Q120.Q.getD k 0)) (BitVec.ofNat 64 (Avx.Q120.MU.getD k 0)) (BitVec.ofNat 64 (Avx.Q120.POW32.getD k 0))).toNat % 2 ^ 32,
+     (Avx.Ntt.cFromB x (BitVec.ofNat 64 (Avx.Q120.Q.getD k 0)) (BitVec.ofNat 64 (Avx.Q120.MU.getD k 0)) (BitVec.ofNat 64 (Avx.Q120.POW32.getD k 0))).toNat / 2 ^ 32)
+      = cPairK (primes30.qs.getD k 1) x.toNat ∧
+    ((Avx.Ntt.reduceBToCanonical x (BitVec.ofNat 64 (Avx.Q120.Q.getD k 0)) (BitVec.ofNat 64 (Avx.Q120.MU.getD k 0)) (BitVec.ofNat 64 (Avx.Q120.POW32.getD k 0))).toNat % 2 ^ 32,
+     (Avx.Ntt.reduceBToCanonical x (BitVec.ofNat 64 (Avx.Q120.Q.getD k 0)) (BitVec.ofNat 64 (Avx.Q120.MU.getD k 0)) (BitVec.ofNat 64 (Avx.Q120.POW32.getD k 0))).toNat / 2 ^ 32)
+      = packLeftK (primes30.qs.getD k 1) x.toNat ∧
+    ∀ y : BitVec 64, ((Avx.Ntt.pairwisePackLeft x y (BitVec.ofNat 64 (Avx.Q120.Q.getD k 0)) (BitVec.ofNat 64 (Avx.Q120.MU.getD k 0))
+        (BitVec.ofNat 64 (Avx.Q120.POW32.getD k 0))).toNat, 0) = pairwisePackLeftK (primes30.qs.getD k 1) x.toNat y.toNat :=
+  ⟨AvxBridge.avx_c_from_b_lane_eq_ref k hk x, AvxBridge.avx_pack_left_lane_eq_ref k hk x,
+   fun y => AvxBridge.avx_pairwise_pack_left_lane_eq_ref k hk x y⟩
+
+/-- `vec_znx_dft_apply` on NTT120Avx: the stored lane is the reference lane and represents the coefficient limb -/
+theorem ntt120avx_dft_lane (k j : Nat) (hk : k < 4) (hj1 : 1 ≤ j) (hj : j ≤ 16) (t : TableK)
+    (ht : nttTableK primes30 k (2 ^ j) = .ok t) (hf : Avx.Ntt.fitsTable t = true) (split : Nat) (a : Poly) (ha : PolyOK j a) :
+    Avx.Ntt.tn (Avx.Ntt.nttAvx (Avx.Ntt.redCOf t.reduc) (t.levels.map Avx.Ntt.levelCOf) split
+        (a.map (fun x => Avx.Ntt.bFromZnx64 (BitVec.ofInt 64 x) (BitVec.ofNat 64 (oq (primes30.qs.getD k 1))))))
+      = nttK t (a.map (fun x => bFromU64K (primes30.qs.getD k 1) (asU64 x))) ∧
+    Rep primes30 k j (Avx.Ntt.tn (Avx.Ntt.nttAvx (Avx.Ntt.redCOf t.reduc) (t.levels.map Avx.Ntt.levelCOf) split
+        (a.map (fun x => Avx.Ntt.bFromZnx64 (BitVec.ofInt 64 x) (BitVec.ofNat 64 (oq (primes30.qs.getD k 1))))))) a :=
+  ⟨AvxBridge.avx_dft_lane_eq_ref k j hk hj1 hj t ht hf split a ha.1, AvxBridge.avx_dft_lane_rep k j hk hj1 hj t ht hf split a ha⟩
+
+/-- every `bbc` product on NTT120Avx (`svp_apply`, `vmp_apply`, `cnv_apply`): the AVX2 lane is `bbcK` on the same rows -/
+theorem ntt120avx_bbc_lane (k : Nat) (hk : k < 4) (rows : List (BitVec 64 × BitVec 64)) (hell : rows.length < 2 ^ 24) :
+    (Avx.Ntt.bbcLane (BitVec.ofNat 64 (maskOf (bbcH primes30))) (BitVec.ofNat 64 (bbcH primes30))
+        (BitVec.ofNat 64 (pow2Mod 32 (primes30.qs.getD k 1))) (BitVec.ofNat 64 (pow2Mod (32 + bbcH primes30) (primes30.qs.getD k 1))) rows).toNat
+      = bbcK (bbcH primes30) (pow2Mod 32 (primes30.qs.getD k 1)) (pow2Mod (32 + bbcH primes30) (primes30.qs.getD k 1)) (rows.map Avx.Ntt.termOf) :=
+  AvxBridge.avx_bbc_lane_eq_ref k hk rows hell
+
+/-- `vec_znx_idft_apply` on NTT120Avx, coefficient `i`, for EVERY DFT-domain content: `intt_avx2` + `b_to_znx128_avx2` give the
+reference's coefficient (`intt_ref` + `b_to_znx128_ref`) -/
+theorem ntt120avx_idft_coeff (j : Nat) (hj1 : 1 ≤ j) (hj : j ≤ 16) (t : Nat → TableK)
+    (ht : ∀ k, k < 4 → inttTableK primes30 k (2 ^ j) = .ok (t k)) (hf : ∀ k, k < 4 → Avx.Ntt.fitsTable (t k) = true)
+    (jj : Nat) (hjj : jj ≤ j) (cs : Nat → List (List (BitVec 64))) (hc : ∀ k, k < 4 → ∀ c ∈ cs k, c.length = 2 ^ jj)
+    (hlen : ∀ k, k < 4 → (cs k).flatten.length = 2 ^ j) (i : Nat) (hi : i < 2 ^ j) (x : Avx.V4)
+    (hx0 : x.l0 = (Avx.Ntt.inttAvx (Avx.Ntt.redCOf (t 0).reduc) ((t 0).levels.map Avx.Ntt.levelCOf) jj (cs 0)).getD i 0#64)
+    (hx1 : x.l1 = (Avx.Ntt.inttAvx (Avx.Ntt.redCOf (t 1).reduc) ((t 1).levels.map Avx.Ntt.levelCOf) jj (cs 1)).getD i 0#64)
+    (hx2 : x.l2 = (Avx.Ntt.inttAvx (Avx.Ntt.redCOf (t 2).reduc) ((t 2).levels.map Avx.Ntt.levelCOf) jj (cs 2)).getD i 0#64)
+    (hx3 : x.l3 = (Avx.Ntt.inttAvx (Avx.Ntt.redCOf (t 3).reduc) ((t 3).levels.map Avx.Ntt.levelCOf) jj (cs 3)).getD i 0#64) :
+    Avx.Ntt.bToZnx128AvxCoef x Avx.Ntt.qV Avx.Ntt.muV Avx.Ntt.p32V Avx.Ntt.p16V Avx.Ntt.crtV Avx.Ntt.hiV Avx.Ntt.midV Avx.Ntt.loV (bigQ primes30)
+      = bToZnx128Core primes30 ((inttK (t 0) (Avx.Ntt.tn (cs 0).flatten)).getD i 0) ((inttK (t 1) (Avx.Ntt.tn (cs 1).flatten)).getD i 0)
+          ((inttK (t 2) (Avx.Ntt.tn (cs 2).flatten)).getD i 0) ((inttK (t 3) (Avx.Ntt.tn (cs 3).flatten)).getD i 0) :=
+  AvxBridge.avx_idft_coeff_eq_ref j hj1 hj t ht hf jj hjj cs hc hlen i hi x hx0 hx1 hx2 hx3
+
+/-! non-vacuity: the executable HAL pipelines on concrete columns, against the specification functions -/
+
+example : cnvPipeline primes30 2 3 0 2 2 (-1) (-4) [[1, 2], [3, -4]] [[5, 6], [-7, 9]] =
+    cnvApplyCol 2 3 0 (cnvPrepareCol 2 2 (-1) [[1, 2], [3, -4]]) (cnvPrepareCol 2 2 (-4) [[5, 6], [-7, 9]]) := by decide +kernel
+example : cnvPipeline primes30 2 3 1 2 2 (-1) (-4) [[1, 2], [3, -4]] [[5, 6], [-7, 9]] = [[15, -10], [8, 56], [0, 0]] := by decide +kernel
+example : cnvPairwisePipeline primes30 2 2 0 1 1 (-1) (-1) [[1, 2]] [[3, 4]] [[5, 6]] [[7, -8]] =
+    cnvApplyCol 2 2 0 (colAdd 2 [[1, 2]] [[3, 4]]) (colAdd 2 [[5, 6]] [[7, -8]]) := by decide +kernel
+example : vmpFullPipeline primes30 2 [[1, 0], [0, 3], [7, 7]] ⟨2, 2, 1, 1, 3, [[[[1, 2], [5, -6], [1, 0]]], [[[0, 1], [2, -2], [9, 8]]]]⟩ 1 3 =
+    vmpFlat 2 [[1, 0], [0, 3], [7, 7]] ⟨2, 2, 1, 1, 3, [[[[1, 2], [5, -6], [1, 0]]], [[[0, 1], [2, -2], [9, 8]]]]⟩ 1 3 := by decide +kernel
+example : vmpFullPipeline primes30 2 [[1, 0], [0, 3], [7, 7]] ⟨2, 2, 1, 1, 3, [[[[1, 2], [5, -6], [1, 0]]], [[[0, 1], [2, -2], [9, 8]]]]⟩ 1 3 =
+    [[11, 0], [-23, 27], [0, 0]] := by decide +kernel
+example : vmpWrites 1 5 5 = [⟨0, true, 0, 1⟩, ⟨1, true, 2, 0⟩, ⟨2, true, 2, 1⟩, ⟨3, false, 4, 0⟩] := by decide
+example : vmpWrites 2 5 6 = [⟨0, true, 2, 0⟩, ⟨1, true, 2, 1⟩, ⟨2, true, 4, 0⟩] := by decide
+example : vmpSlotAddr 3 5 2 4 1 = 4 * 3 * 16 + 2 * 16 + 3 * 5 * 16 ∧ vmpSlotAddr 3 5 2 3 0 = 1 * (3 * 32) + 2 * 32 + 16 := by decide
+example : 2 ^ 63 ≤ fwdFinal primes30 0 6 ∧ fwdFinal primes30 0 5 < 2 ^ 63 := by decide +kernel
+example : (DExpr.sub (.svp [1, 2] (.dft [3, 4])) (.neg (.dft [5, 6]))).spec 2 = [0, 16] ∧
+    (DExpr.sub (.svp [1, 2] (.dft [3, 4])) (.neg (.dft [5, 6]))).WF 1 := by
+  refine ⟨by decide, ⟨⟨by decide, by decide⟩, by decide, by decide⟩, by decide, by decide⟩
+example : idftLimb primes30 2 ((DExpr.sub (.svp [1, 2] (.dft [3, 4])) (.neg (.dft [5, 6]))).lane primes30 0 2 true)
+    ((DExpr.sub (.svp [1, 2] (.dft [3, 4])) (.neg (.dft [5, 6]))).lane primes30 1 2 true)
+    ((DExpr.sub (.svp [1, 2] (.dft [3, 4])) (.neg (.dft [5, 6]))).lane primes30 2 2 true)
+    ((DExpr.sub (.svp [1, 2] (.dft [3, 4])) (.neg (.dft [5, 6]))).lane primes30 3 2 true) = [0, 16] := by decide +kernel
+example : Reach primes30 0 6 true (addBbbAvxK (primes30.qs.getD 0 1) lazyWitness lazyWitness) := by
+  have h : lazyWitness ≤ fwdFinal primes30 0 6 := by decide +kernel
+  have := Reach.add (avx := true) lazyWitness lazyWitness (Reach.dft _ h) (Reach.dft _ h)
+  simpa using this
+example : compactCrt primes30 [primes30.q0 * 2 ^ 33 - 1, 5, primes30.q2 * 2 ^ 33 - 1, 0] =
+    .ok (bToZnx128Core primes30 (primes30.q0 * 2 ^ 33 - 1) 5 (primes30.q2 * 2 ^ 33 - 1) 0) :=
+  ntt120_idft_consume_eq_apply _ _ _ _ (by decide) (by decide) (by decide) (by decide)
+example : (match compactCrt primes30 [primes30.q0 * 2 ^ 33 - 1, 5, primes30.q2 * 2 ^ 33 - 1, 0] with
+    | .ok v => decide (v = -300557948761496581723738491311732269) | _ => false) = true := by decide +kernel
+example : addCccK primes30.q0 (2 ^ 32 - 1) (2 ^ 32 - 1) = (2 ^ 33 - 2) % primes30.q0 := by decide
+example : baaK (baaMeta primes31).h ((baaMeta primes31).hPowRed.getD 0 0) [(2 ^ 32 - 1, 2 ^ 32 - 1), (7, 9)] % primes31.q0 =
+    ((2 ^ 32 - 1) * (2 ^ 32 - 1) + 63) % primes31.q0 := by decide +kernel
+example : (fillReductionMeta primes30 64).h = 47 ∧ (fillReductionMeta primes31 64).bsAfter = 47 := by decide +kernel
+example : ((Avx.Ntt.cFromB (BitVec.ofNat 64 lazyWitness) (BitVec.ofNat 64 (Avx.Q120.Q.getD 0 0)) (BitVec.ofNat 64 (Avx.Q120.MU.getD 0 0))
+      (BitVec.ofNat 64 (Avx.Q120.POW32.getD 0 0))).toNat % 2 ^ 32) = (cPairK primes30.q0 lazyWitness).1 ∧
+    primes30.q0 * 2 ^ 33 < lazyWitness := by decide +kernel
+
+end NTT120Hal
 
 end C07
